@@ -457,10 +457,111 @@ func witnessFromError(codec string, w int, e []byte) c03Witness {
 	return c03Witness{Codec: codec, Valid: valid, Corrupted: string(b)}
 }
 
+// acceptedDifferences probes the decoder with strings whose remainder differs from a
+// valid string's remainder by d (the last 8 / 6 symbols enter the remainder without
+// feedback, so XOR-ing d into the checksum symbols changes the remainder by exactly d)
+// and returns every non-zero d that is accepted.  Candidates: all d of bit weight <= 2
+// (quick) / <= 3 (thorough), the bech32m constant difference, and in the thorough tier
+// every one of the 2^30 bech32 differences.
+func acceptedDifferences(ev *Ev, codec string) []uint64 {
+	nbits, cs := 40, 8
+	prefix := "bitcoincash"
+	data := make([]byte, 34)
+	if codec == "bech32" {
+		nbits, cs, prefix = 30, 6, "a"
+		data = nil
+	}
+	for i := range data {
+		data[i] = byte((i*7 + 3) % 32)
+	}
+	var valid string
+	if codec == "cashaddr" {
+		valid = prefix + ":" + refCashEncodeSymbols(prefix, data)
+	} else {
+		valid = refBech32Encode(prefix, data)
+	}
+	if !c03ImplAccepts(codec, valid) {
+		return nil
+	}
+	base := []byte(valid)
+	start := len(base) - cs
+	sym := make([]int, cs)
+	for j := 0; j < cs; j++ {
+		sym[j] = symbolOf(base[start+j])
+	}
+	try := func(buf []byte, d uint64) bool {
+		for j := 0; j < cs; j++ { // group j counted from the end
+			v := int(d >> uint(5*j) & 31)
+			buf[start+cs-1-j] = b32Charset[sym[cs-1-j]^v]
+		}
+		return c03ImplAccepts(codec, string(buf))
+	}
+	var out []uint64
+	var mu sync.Mutex
+	var probes atomic.Int64
+	if codec == "bech32" && thorough() {
+		parallelFor(1<<10, 16, func(hi int) {
+			buf := append([]byte{}, base...)
+			for lo := 0; lo < 1<<20; lo++ {
+				d := uint64(hi)<<20 | uint64(lo)
+				if d != 0 && try(buf, d) {
+					mu.Lock()
+					out = append(out, d)
+					mu.Unlock()
+				}
+			}
+			probes.Add(1 << 20)
+		})
+		ev.Exhaustive("bech32: every one of the 2^30 possible remainder values offered to the decoder (complete acceptance set)", 1<<30)
+	} else {
+		var cands []uint64
+		maxBits := pick(2, 3)
+		var rec func(from int, cur uint64, left int)
+		rec = func(from int, cur uint64, left int) {
+			if cur != 0 {
+				cands = append(cands, cur)
+			}
+			if left == 0 {
+				return
+			}
+			for b := from; b < nbits; b++ {
+				rec(b+1, cur|1<<uint(b), left-1)
+			}
+		}
+		rec(0, 0, maxBits)
+		if codec == "bech32" {
+			cands = append(cands, 1^0x2bc830a3)
+		}
+		for m := uint(1); m < uint(nbits); m++ { // low / high masks (a verifier comparing only part of the remainder)
+			cands = append(cands, 1<<m-1, (1<<uint(nbits)-1)&^(1<<m-1))
+		}
+		buf := append([]byte{}, base...)
+		for _, d := range cands {
+			if try(buf, d) {
+				out = append(out, d)
+			}
+		}
+		probes.Add(int64(len(cands)))
+	}
+	ev.Bulk("C03:acceptance-probes-"+codec, probes.Load(), probes.Load())
+	if len(out) > 0 {
+		ev.Note("%s decoder accepts %d remainder(s) other than the specified one, e.g. difference %#x", codec, len(out), out[0])
+		if len(out) > 8 {
+			out = out[:8]
+		}
+	}
+	return out
+}
+
 // exhaustiveDistance checks that no error pattern of weight <= maxW (4 or 5) on a
 // window of w symbols has syndrome zero.  w5 is the window for the weight-5 pass
 // (<= w).  Returns the number of patterns covered.
 func exhaustiveDistance(ev *Ev, codec string, w int, maxW int, w5 int) {
+	// remainder differences the decoder accepts besides 0 (a verifier that compares
+	// only part of the remainder, or accepts a second constant, shows up here even
+	// though the remainder function itself is unchanged)
+	extra := acceptedDifferences(ev, codec)
+	targets := append([]uint64{0}, extra...)
 	tab := syndromeTable(codec, w)
 	// sanity: table entries are GF(2)-linear in the value bits (cheap, complete)
 	for j := 0; j < w; j++ {
@@ -502,6 +603,46 @@ func exhaustiveDistance(ev *Ev, codec string, w int, maxW int, w5 int) {
 			if nz > 0 {
 				kC03Witness.One(ev, witnessFromError(codec, w, e))
 				ev.Note("%s: undetected error pattern of weight %d (two weight<=2 patterns with equal syndrome)", codec, nz)
+				return
+			}
+		}
+	}
+	lookupT2 := func(x uint64) int {
+		i := sort.Search(len(t2), func(i int) bool { return t2[i].s >= x })
+		if i < len(t2) && t2[i].s == x {
+			return i
+		}
+		return -1
+	}
+	cs := 8
+	if codec == "bech32" {
+		cs = 6
+	}
+	for _, d := range extra {
+		// the difference itself, applied to the checksum symbols
+		var pv []int
+		for j := 0; j < cs; j++ {
+			if v := int(d >> uint(5*j) & 31); v != 0 {
+				pv = append(pv, j, v)
+			}
+		}
+		if len(pv)/2 <= maxW {
+			kC03Witness.One(ev, witnessFromError(codec, w, errVector(w, pv...)))
+			ev.Note("%s: decoder accepts a remainder that differs by %#x from the valid one (%d checksum symbols)", codec, d, len(pv)/2)
+			return
+		}
+		if i := lookupT2(d); i >= 0 {
+			a1, b1, a2, b2 := unpackPat(t2[i].p)
+			kC03Witness.One(ev, witnessFromError(codec, w, errVector(w, a1, b1, a2, b2)))
+			ev.Note("%s: accepted remainder difference %#x is the syndrome of a pattern of weight <=2", codec, d)
+			return
+		}
+		for i := range t2 {
+			if j := lookupT2(t2[i].s ^ d); j >= 0 {
+				a1, b1, a2, b2 := unpackPat(t2[i].p)
+				c1, d1, c2, d2 := unpackPat(t2[j].p)
+				kC03Witness.One(ev, witnessFromError(codec, w, errVector(w, a1, b1, a2, b2, c1, d1, c2, d2)))
+				ev.Note("%s: accepted remainder difference %#x is the syndrome of a pattern of weight <=4", codec, d)
 				return
 			}
 		}
@@ -559,38 +700,41 @@ func exhaustiveDistance(ev *Ev, codec string, w int, maxW int, w5 int) {
 					s12 := s1 ^ tab[j2][v2]
 					row := &tab[j3]
 					for v3 := 1; v3 < 32; v3++ {
-						s := s12 ^ row[v3]
+						s0 := s12 ^ row[v3]
 						n++
-						if s == 0 {
-							mu.Lock()
-							if !found.Swap(true) {
-								kC03Witness.One(ev, witnessFromError(codec, w, errVector(w, j1, v1, j2, v2, j3, v3)))
-								ev.Note("%s: undetected error pattern of weight 3", codec)
+						for _, d := range targets {
+							s := s0 ^ d
+							if s == 0 {
+								mu.Lock()
+								if !found.Swap(true) {
+									kC03Witness.One(ev, witnessFromError(codec, w, errVector(w, j1, v1, j2, v2, j3, v3)))
+									ev.Note("%s: undetected error pattern of weight 3", codec)
+								}
+								mu.Unlock()
+								return
 							}
-							mu.Unlock()
-							return
-						}
-						h := mix(s)
-						if filter[h>>6]&(1<<(h&63)) == 0 {
-							continue
-						}
-						if i := lookup(s); i >= 0 {
-							a1, b1, a2, b2 := unpackPat(t2[i].p)
-							e := errVector(w, j1, v1, j2, v2, j3, v3, a1, b1, a2, b2)
-							nz := 0
-							for _, x := range e {
-								nz += bits.OnesCount8(x) & 0xff
-							}
-							if nz == 0 {
+							h := mix(s)
+							if filter[h>>6]&(1<<(h&63)) == 0 {
 								continue
 							}
-							mu.Lock()
-							if !found.Swap(true) {
-								kC03Witness.One(ev, witnessFromError(codec, w, e))
-								ev.Note("%s: undetected error pattern of weight <=5", codec)
+							if i := lookup(s); i >= 0 {
+								a1, b1, a2, b2 := unpackPat(t2[i].p)
+								e := errVector(w, j1, v1, j2, v2, j3, v3, a1, b1, a2, b2)
+								nz := 0
+								for _, x := range e {
+									nz += bits.OnesCount8(x) & 0xff
+								}
+								if nz == 0 {
+									continue
+								}
+								mu.Lock()
+								if !found.Swap(true) {
+									kC03Witness.One(ev, witnessFromError(codec, w, e))
+									ev.Note("%s: undetected error pattern of weight <=5", codec)
+								}
+								mu.Unlock()
+								return
 							}
-							mu.Unlock()
-							return
 						}
 					}
 				}
